@@ -47,7 +47,9 @@ pub async fn start(address: &str, socket: TcpSocket, system: SharedSystem) -> So
                     info!("Created new session: {session}");
                     let system = system.clone();
                     let mut sender = SenderKind::get_tcp_sender(stream);
-                    tokio::spawn(async move {
+                    let connection_system = system.clone();
+                    let connection = tokio::spawn(async move {
+                        let system = connection_system;
                         if let Err(error) =
                             handle_connection(session, &mut sender, system.clone()).await
                         {
@@ -58,6 +60,13 @@ pub async fn start(address: &str, socket: TcpSocket, system: SharedSystem) -> So
                             } else {
                                 info!("Successfully closed TCP stream for client: {client_id}, address: {address}.");
                             }
+                        }
+                    });
+                    tokio::spawn(async move {
+                        // A panic while handling a request drops the socket, the session has to go with it.
+                        if connection.await.is_err_and(|error| error.is_panic()) {
+                            error!("TCP connection handler failed for client: {client_id}, address: {address}.");
+                            system.read().await.delete_client(client_id).await;
                         }
                     });
                 }
